@@ -528,7 +528,6 @@ def gen_cases(run, scale):
     return cases
 
 
-UTF8_NOHYPHEN = __import__('re').compile(rb"""\s*<\?xml[^>]*encoding\s*=\s*["'][uU][tT][fF]8["']""")
 HUGE_HEX = __import__('re').compile(rb'0[xX][0-9a-fA-F]{3500,}')
 
 
@@ -662,12 +661,6 @@ def run(run):
             run.count('text:not_utf8')
             continue
         if len(text) > 30000:
-            continue
-        if UTF8_NOHYPHEN.match(c['body']) and any(b >= 0x80 for b in c['body']):
-            # XmlParse.par takes encoding="utf8" for UTF-8; expat does not know that name and Python's fallback
-            # handler builds a single-byte table for it, so non-ASCII content is rejected: outside what the shared
-            # parser model covers (reported to its owner)
-            run.count('text:skipped_decl_utf8_nonascii')
             continue
         tq = dict(q)
         tq['op'] = 'rspText'
